@@ -100,7 +100,8 @@ def wsCloseStep (args : List String) : String :=
       | .open st, false =>
         if st.up then
           let d := Coap.M.Ws.wsClose mode st (bs.drop cut)
-          "M " ++ showMsgs r.1 ++ " drain rc=" ++ (if d.1 then "1" else "0") ++ " left=" ++ toString d.2.2.1.length
+          "M " ++ showMsgs r.1 ++ " drain rc=" ++ (if d.1 then "1" else "0") ++ " left=" ++ toString d.2.2.1.length ++
+            " rounds=" ++ toString (Coap.M.Ws.drainRounds mode Coap.M.Ws.drainCount st (bs.drop cut)) ++ " calls=" ++ toString d.2.2.2
         else "M " ++ showMsgs r.1 ++ " noclose"
       | _, _ => "M " ++ showMsgs r.1 ++ " noclose"
     | _, _, _ => "bad-op"
@@ -118,7 +119,8 @@ def wsSelfStep (args : List String) : String :=
     | some mode, some bs =>
       let r := Coap.M.Ws.feed mode acceptConst {} [bs]
       match Coap.M.Ws.selfClose mode acceptConst {} bs with
-      | some d => "M " ++ showMsgs r.1 ++ " self rc=" ++ (if d.1 then "1" else "0") ++ " left=" ++ toString d.2.2.1.length
+      | some d => "M " ++ showMsgs r.1 ++ " self rc=" ++ (if d.1 then "1" else "0") ++ " left=" ++ toString d.2.2.1.length ++
+          " rounds=" ++ toString (Coap.M.Ws.selfCloseRounds mode acceptConst {} bs) ++ " calls=" ++ toString d.2.2.2
       | none => "M " ++ showMsgs r.1 ++ " noself"
     | _, _ => "bad-op"
   | _ => "bad-op"
